@@ -15,7 +15,7 @@ RULE = (
     "and rotating decision metric with all decision-threshold classes; plus seeded generated families. A case is "
     "non-trivial when both sides have at least one instance and at least one candidate pair overlaps (matched input: a "
     "common label); distinct = distinct hash of (arrays, dtype, configuration)."
-    ' Further families: nearly tied competing candidates on instances of 300..10000 voxels; sparse volumes beyond 2^18 / 2^20 / 2^22 voxels with instances in the first and last voxels; evaluations through the real process pool.'
+    ' Further families: nearly tied competing candidates on instances of 300..10000 voxels; sparse volumes beyond 2^18 / 2^20 / 2^22 voxels with instances in the first and last voxels; label values whose products / pair codes sit at 2^8, 2^16 and 2^32 (both directions); evaluations through the real process pool.'
 )
 ASSUMPTIONS = [
     "reference model vf/ref.py (BFS components, exact Fractions, brute-force ASSD) is the documented definition",
@@ -59,6 +59,8 @@ def cases(tier, seed):
         yield {"fam": "neartie", "i": i}
     for i in range(24 if tier == "quick" else 240):
         yield {"fam": "bigvol", "i": i}
+    for i in range(180 if tier == "quick" else 1800):
+        yield {"fam": "paircode", "i": i}
 
 
 def setup(ctx):
@@ -156,6 +158,16 @@ def run(case, ctx):
             p2, r2 = (pred, refa) if it == "UNMATCHED_INSTANCE" else (pred.astype(np.int64), refa.astype(np.int64))
             cfg = {"input": it, "backend": "cc3d" if it == "SEMANTIC" else None, "matcher": {"kind": "naive", "metric": ["IOU", "DSC"][i % 2], "thr": [0.3, 0.1][(i // 2) % 2], "m2o": False},
                    "metrics": ["DSC", "IOU", "RVD"]}
+            pipeline.check_evaluate(ctx, ID, p2, r2, cfg)
+            ctx.nontrivial(gen.arr_key(p2, r2), cfg)
+        return
+    if fam == "paircode":
+        # label values whose products sit at 2^8 / 2^16 / 2^32 (unmatched instances with database-style labels)
+        pred, refa = gen.paircode_boundary_pair(ctx.seed, i)
+        ctx.count("f:family.paircode_boundary")
+        cfg = {"input": "UNMATCHED_INSTANCE", "matcher": {"kind": ["naive", "merge"][(i // 7) % 2], "metric": ["IOU", "DSC"][i % 2], "thr": [0.5, 0.3][(i // 2) % 2], "m2o": False},
+               "metrics": ["DSC", "IOU", "RVD"], "global": ["DSC"]}
+        for p2, r2 in ((pred, refa), (refa, pred)):
             pipeline.check_evaluate(ctx, ID, p2, r2, cfg)
             ctx.nontrivial(gen.arr_key(p2, r2), cfg)
         return
